@@ -980,7 +980,16 @@ def run(ctx):
                     ('identifiers', lambda: identifiers(ctx, strings)), ('like_model_vs_sqlite', lambda: like_model_vs_sqlite(ctx)),
                     ('like_queries', lambda: like_queries(ctx, strings)), ('statements', lambda: statements(ctx, strings)),
                     ('builder_text_tie', lambda: builder_text_tie(ctx)), ('structure', lambda: structure(ctx, strings)), ('typed_constants', lambda: typed_constants(ctx)), ('param_eval_queries', lambda: param_eval_queries(ctx, strings)), ('temporal_values', lambda: temporal_values(ctx))]:
-        t0 = _t.time(); f(); timings[name] = round(_t.time() - t0, 2)
+        t0 = _t.time()
+        try: f()
+        except Exception as ex:
+            # nothing in these sections raises on the unchanged tree: the real code refused or crashed on an input of the property's domain
+            import traceback
+            tb = traceback.format_exc().strip().splitlines()
+            ctx.violation('the real code raised %s while the check section %r supplied values of the property\'s domain' % (type(ex).__name__, name),
+                          {'section': name, 'exception': '%s: %s' % (type(ex).__name__, short(str(ex), 200)), 'traceback_tail': tb[-8:]},
+                          observed='raised %s' % type(ex).__name__, expected='no exception', key='section-raised:%s:%s' % (name, type(ex).__name__))
+        timings[name] = round(_t.time() - t0, 2)
 
 
 def replay(ctx, data):
